@@ -221,9 +221,17 @@ func c06Worker(ctx *core.Ctx) *core.Result {
 					log += data
 				}
 			}
+			sessConf := ""
+			for _, t := range r.trans {
+				if t.Class == sim.ClSessionConf && strings.HasPrefix(t.Text, "terminal width") {
+					sessConf = t.Text
+				}
+			}
 			switch {
 			case bad != "":
 				x.violation(dc, r, "interlock-blocks", "changed-despite:"+sc.devType+":"+c.why, "interlock ("+c.why+") did not stop the run: sent "+bad)
+			case sessConf != "":
+				x.violation(dc, r, "interlock-blocks", "session-config-despite:"+sc.devType+":"+c.why, "before the interlock ("+c.why+") stopped the run it sent "+sessConf+" in configuration mode")
 			case r.before != r.after:
 				x.violation(dc, r, "interlock-blocks", "state-changed-despite:"+sc.devType+":"+c.why, "device state changed")
 			case r.exit == 0:
